@@ -14,7 +14,7 @@
    enter C03_global_error_partial as the hypothesis on e and are measured numerically by the check. *)
 From Coq Require Import Reals ZArith QArith Qcanon List Lia Bool.
 From Coquelicot Require Import Coquelicot.
-From RV Require Import Proofs.VacuityA Base.Num Base.Vec Mech.Intg Spec.SpecDyn Inst Proofs.QcInst Proofs.ConvProofs Proofs.ConvReal Proofs.DerProofs Proofs.EulerConv Proofs.EulerConvVec Proofs.RK4Conv Mech.Colloc Proofs.CollocConv Proofs.CollocOrder2 Proofs.RK4Order4 Proofs.RK4QuadOrder4.
+From RV Require Import Proofs.VacuityA Base.Num Base.Vec Mech.Intg Spec.SpecDyn Inst Proofs.QcInst Proofs.ConvProofs Proofs.ConvReal Proofs.DerProofs Proofs.EulerConv Proofs.EulerConvVec Proofs.RK4Conv Mech.Colloc Proofs.CollocConv Proofs.CollocOrder2 Proofs.RK4Order4 Proofs.RK4QuadOrder4 Proofs.RK4TimeDep.
 Import ListNotations.
 
 Theorem C03_rk4_order_conditions :
@@ -414,6 +414,23 @@ Proof. exact (rk4_integral_converges_order4 f g x t0 T B L F2 F3 F4 G1 G2 G3 G4 
 Print Assumptions C03_rk4_integral_converges_order4.
 
 
+(* an explicitly TIME-DEPENDENT right-hand side x' = phi(t): with the stage times t, t+h/2, t+h/2, t+h taken as absolute times
+   the model's rk step is Simpson's rule and every intermediate state is within (T K4 49/2880) h^4 of x0 + the integral of phi
+   (Proofs/RK4TimeDep.v; a stage time that is stale or relative, as in the seeded changes C01-a / C03-a, destroys this) *)
+Theorem C03_rk4_time_dependent_quadrature_order4 (phi : R -> R) (x0 t0 T K4 : R) (M : nat) :
+  0 < T -> (0 < M)%nat ->
+  (forall t k, (k <= 4)%nat -> ex_derive_n phi k t) ->
+  (forall t, t0 <= t <= t0 + T -> Rabs (Derive_n phi 4 t) <= K4) ->
+  let h := T / INR M in
+  let sys := mkSys (fun (_ : list R) (t : R) => [phi t]) (fun _ _ => []) in
+  let st := @discrete_system R ROps (intg_rk sys) M 0 [x0] T t0 in
+  forall j, (j <= M)%nat ->
+    Rabs (nth 0 (nth j (ds_X st) [x0]) 0 - (x0 + RInt phi t0 (t0 + INR j * h)))
+    <= (T * K4 * (49 / 2880)) * h ^ 4.
+Proof. exact (rk4_time_quadrature_order4 phi x0 t0 T K4 M). Qed.
+Print Assumptions C03_rk4_time_dependent_quadrature_order4.
+
+
 Theorem C03_dc_degree1_coefficients :
   forall (F : Type) (OF : Ops F), FieldLaws OF -> (@o2 F OF) <> o0 ->
   (coeff_C [o1 : F] = [[oopp o1]; [o1]] /\ coeff_D [o1 : F] = [o0; o1] /\ coeff_B [o1 : F] = [o1]) /\
@@ -422,7 +439,7 @@ Proof. intros F OF Fl H2. split; [exact (coeff_radau1 Fl)|exact (coeff_legendre1
 Print Assumptions C03_dc_degree1_coefficients.
 
 Example C03_dc_nonvacuous : True /\ True.
-Proof. pose proof dc_radau1_decay as _. pose proof dc_legendre1_decay as _. pose proof dc_legendre1_decay_order2 as _. pose proof rk4_converges_order4_sin as _. pose proof rk4_integral_order4_sin as _. split; exact I. Qed.
+Proof. pose proof dc_radau1_decay as _. pose proof dc_legendre1_decay as _. pose proof dc_legendre1_decay_order2 as _. pose proof rk4_converges_order4_sin as _. pose proof rk4_integral_order4_sin as _. pose proof rk4_time_quadrature_cos as _. split; exact I. Qed.
 
 (* further witnesses that the hypotheses of this file's theorems are met by realistic inputs (N = 1, M = 1, no controls,
    t0 = 0, concrete grids / collocation points): proved in Proofs/VacuityA.v by the vacuity audit *)
